@@ -175,31 +175,57 @@ def warnings_(sx, B):
     sx.claim(all(names[a - 1] == ra and names[c - 1] == rc for a, ra, c, rc in got), "warnings name the residues correctly", lambda: repr(got))
 
 
-MOLS = {"POL": [("A", ["a1"]), ("B", ["b1"]), ("A", ["a1"])], "SOL": [("S", ["s1"])], "DIM": [("A", ["a1"]), ("A", ["a1"])]}
+MOLS = {"POL": [("A", ["a1"]), ("B", ["b1"]), ("A", ["a1"])], "SOL": [("S", ["s1"])], "DIM": [("A", ["a1"]), ("A", ["a1"])],
+        # a three-membered ring with a pendant residue (bonds listed below)
+        "RNG": [("A", ["a1"]), ("B", ["b1"]), ("A", ["a1"]), ("B", ["b1"])]}
+RNG_BONDS = [(1, 2), (2, 3), (3, 1), (1, 4)]
+
+
+def _connected(natoms, bonds):
+    """own reachability over atom numbers 1..natoms"""
+    seen, todo = {1}, [1]
+    while todo:
+        x = todo.pop()
+        for a, b in bonds:
+            for u, v in ((a, b), (b, a)):
+                if u == x and v not in seen:
+                    seen.add(v)
+                    todo.append(v)
+    return len(seen) == natoms
 
 
 @condition("C10.connectivity_gate",
            anchors=["polyply.src.gen_coords:_check_molecules"],
-           rejects=(), selector_only=True, must_cover=["rejected", "accepted"],
-           bounds={"quick": dict(layouts=[[("SOL", 2), ("POL", 1)], [("POL", 1), ("SOL", 2)], [("DIM", 2), ("POL", 1), ("SOL", 1)], [("SOL", 1), ("DIM", 1)]]),
+           rejects=(), selector_only=True, must_cover=["rejected", "accepted", "ring still connected", "ring plus detached residue"],
+           bounds={"quick": dict(layouts=[[("SOL", 2), ("POL", 1)], [("POL", 1), ("SOL", 2)], [("DIM", 2), ("POL", 1), ("SOL", 1)], [("SOL", 1), ("DIM", 1)],
+                                          [("SOL", 1), ("RNG", 1)], [("RNG", 2), ("POL", 1)]]),
                    "thorough": dict(layouts=[[("SOL", 2), ("POL", 1)], [("POL", 1), ("SOL", 2)], [("DIM", 2), ("POL", 1), ("SOL", 1)], [("SOL", 1), ("DIM", 1)],
-                                             [("SOL", 3), ("DIM", 2), ("POL", 2)], [("POL", 2), ("DIM", 1)]])})
+                                             [("SOL", 3), ("DIM", 2), ("POL", 2)], [("POL", 2), ("DIM", 1)], [("SOL", 1), ("RNG", 1)],
+                                             [("RNG", 2), ("POL", 1)], [("DIM", 1), ("RNG", 1), ("SOL", 2)]])})
 def connectivity_gate(sx, B):
     """Real _check_molecules (the gate gen_coords applies before building) on topologies read by the real reader in which a
-    solver-chosen molecule type misses a solver-chosen bond: building is refused iff some molecule of the list is disconnected,
-    wherever it stands in [ molecules ] and whatever precedes it."""
+    solver-chosen molecule type (chains, and a ring with a pendant residue) misses a solver-chosen bond: building is refused iff
+    some molecule of the list is disconnected, wherever it stands in [ molecules ] and whatever precedes it - also when the
+    remaining bonds are as many as a connected molecule of that size would need."""
     layout = sx.sel("layout", B["layouts"])
-    broken = sx.sel("broken_type", ["none", "POL", "DIM"])
-    which = sx.sel("missing_bond", [0, 1])
+    broken = sx.sel("broken_type", ["none", "POL", "DIM", "RNG"])
+    which = sx.sel("missing_bond", [0, 1, 2, 3])
     mt = {}
+    disconnected_types = set()
     for name, res in MOLS.items():
         natoms = sum(len(a) for _, a in res)
-        bonds = [(i, i + 1) for i in range(1, natoms)]
+        bonds = list(RNG_BONDS) if name == "RNG" else [(i, i + 1) for i in range(1, natoms)]
         if name == broken and bonds:
             bonds.pop(min(which, len(bonds) - 1))
+        if not _connected(natoms, bonds):
+            disconnected_types.add(name)
+            if name == "RNG":
+                sx.cover("ring plus detached residue")
+        elif name == "RNG" and name == broken:
+            sx.cover("ring still connected")
         mt[name] = moltype_text(name, res, bonds=bonds)
     top = topology_from_text(top_text(mt, layout))
-    any_disconnected = broken != "none" and any(nm == broken and cnt > 0 for nm, cnt in layout)
+    any_disconnected = any(nm in disconnected_types and cnt > 0 for nm, cnt in layout)
     try:
         gen_coords._check_molecules(top.molecules)
     except IOError:
